@@ -183,7 +183,8 @@ class Playback(BaseEngine):
         return {'prop': prop, 'type': ftype, 'tpb': tpb, 'tracks': tracks, 'clock': clock,
                 'delays': delays, 'abandon_after': pick(rng, (None, None, None, 0, 1, 3)),
                 'meta_messages': rng.random() < 0.4, 'second': second, 'bystander': bystander,
-                'play_mutate': rng.random() < 0.3, 'default_now': rng.random() < 0.25}
+                'play_mutate': rng.random() < 0.3, 'default_now': rng.random() < 0.25,
+                'frozen': pick(rng, (0, 0, 0, 0, 1, 2, 3))}
 
     # ------------------------------------------------------------ execution
     def abort_cleanup(self):
@@ -253,6 +254,16 @@ class Playback(BaseEngine):
 
     def _simulate(self, plan, log, stats, cov, sim):
         tracks = [mido.MidiTrack(build_msg(e[1:], e[0]) for e in tr) for tr in plan['tracks']]
+        if plan.get('frozen'):
+            # frozen (immutable, hashable) messages are legal track content
+            from mido.frozen import freeze_message
+            k = 0
+            for tr in tracks:
+                for i, m in enumerate(tr):
+                    k += 1
+                    if k % plan['frozen'] == 0:
+                        tr[i] = freeze_message(m)
+            stats['fault:frozen_messages_in_tracks'] += 1
         try:
             mf = mido.MidiFile(type=plan['type'], ticks_per_beat=plan['tpb'], tracks=tracks)
         except Exception as e:
@@ -368,10 +379,13 @@ class Playback(BaseEngine):
                         if (sec['edit'] == 'tempo' and m.type == 'set_tempo') or sec['edit'] == 'delta']
                 if sec['edit'] in ('tempo', 'delta') and flat:
                     ti, i = flat[sec['pick'] % len(flat)]
+                    from mido.frozen import thaw_message
+                    m = thaw_message(tracks[ti][i])      # a frozen message is replaced by an edited thawed copy
                     if sec['edit'] == 'tempo':
-                        tracks[ti][i].tempo = sec['value']
+                        m.tempo = sec['value']
                     else:
-                        tracks[ti][i].time = tracks[ti][i].time + 7
+                        m.time = m.time + 7
+                    tracks[ti][i] = m
             snapshot2 = [[(m.type, m.time) for m in tr] for tr in tracks]
             model2 = self._model(plan2, tracks)
             sim2 = [0.0]
@@ -532,6 +546,8 @@ class Playback(BaseEngine):
             yield replace_at(plan, ('delays',), [0.0])
         if plan['abandon_after'] is not None:
             yield replace_at(plan, ('abandon_after',), None)
+        if plan.get('frozen'):
+            yield replace_at(plan, ('frozen',), 0)
         for flag in ('play_mutate', 'second', 'bystander'):
             if plan.get(flag):
                 yield replace_at(plan, (flag,), None if flag != 'play_mutate' else False)
